@@ -25,7 +25,8 @@ REQUIRED_COUNTERS = {"observations": {"quick": 20000, "thorough": 400000},
                      "threaded_observations": {"quick": 3000, "thorough": 60000},
                      "thread_switches_between_observations": {"quick": 1000, "thorough": 20000},
                      "stub_checks": {"quick": 3000, "thorough": 60000},
-                     "linepause_cases": {"quick": 50, "thorough": 50}}
+                     "linepause_cases": {"quick": 50, "thorough": 50},
+                     "observations_through_contextvars": {"quick": 1000, "thorough": 20000}}
 SHARD_TIMEOUT = {"quick": 400, "thorough": 5400}
 INTERPS = ["3.12", "3.11", "3.10", "3.9"]
 
@@ -101,8 +102,40 @@ def worker(spec):
         if cp is not None:
             cp()
 
+    import contextvars
+
     def observe(node, pos):
         checkpoint()
+        if pos == 0 and node["id"] % 3 == 0:
+            # (a) the same observation made through a *fresh* contextvars.Context on this thread: it is
+            #     still invoked within this extraction, on this thread
+            try:
+                s_ctx = contextvars.Context().run(extract_child, Token(), for_task=False)
+                tls.obs.append((node["id"], "ctx", bool(s_ctx.frames and s_ctx.frames[0].contexts),
+                                tuple(node["eff"])[1], True, tuple(node["eff"])))
+            except RuntimeError as ex:
+                tls.problems.append("extract_child refused inside an extraction when called through a fresh "
+                                    "contextvars.Context (node %d): %r" % (node["id"], ex))
+            # (b) a helper thread started from the hook with a *copy* of the current context (the
+            #     to_thread pattern) is outside any extraction: extract_child must refuse there
+            box = {}
+
+            def helper():
+                try:
+                    extract_child(Token(), for_task=False)
+                    box["r"] = "ran"
+                except RuntimeError:
+                    box["r"] = "refused"
+                except BaseException as ex:  # noqa
+                    box["r"] = repr(ex)
+
+            ctx = contextvars.copy_context()
+            th = threading.Thread(target=ctx.run, args=(helper,))
+            th.start()
+            th.join(30)
+            tls.ctx_checks = getattr(tls, "ctx_checks", 0) + 1
+            if box.get("r") != "refused":
+                tls.problems.append("extract_child on a helper thread (copied context) did not refuse: %r" % box.get("r"))
         with warnings.catch_warnings():
             warnings.simplefilter("ignore")
             s = extract_child(Token(), for_task=True)
@@ -219,6 +252,11 @@ def worker(spec):
             pass
         problems = list(tls.problems)
         for nid, pos, wc_obs, rc_obs, stub_ok, eff in tls.obs:
+            if pos == "ctx":
+                if wc_obs != eff[0]:
+                    problems.append("node %d: through a fresh contextvars.Context with_contexts=%r, model %r" % (
+                        nid, wc_obs, eff[0]))
+                continue
             if (wc_obs, rc_obs) != eff:
                 problems.append("node %d pos %d observed (with_contexts=%r, recurse=%r), model says %r" % (
                     nid, pos, wc_obs, rc_obs, eff))
@@ -252,6 +290,9 @@ def worker(spec):
                 walk(c, n)
         walk(node, None)
         for nid, pos, wc_obs, rc_obs, stub_ok, eff in obs:
+            if pos == "ctx":
+                res.count("observations_through_contextvars")
+                continue
             n, parent = index[nid]
             if (parent is not None and tuple(parent["eff"]) != tuple(n["eff"])) or pos > 0:
                 res.nontrivial(desc, nid, pos)
